@@ -67,7 +67,8 @@ func treeSpecs(c *oracleCtx) []treeSpec {
 	}
 	out = append(out, treeSpec{"L()", func() any { return NewList() }}, treeSpec{"O()", func() any { return NewObject() }})
 	// width 2 / depth 2 combinations over a reduced alphabet, exhaustive
-	small := []leafSpec{leaves[0], leaves[1], {"i1", 1}, {"f1", 1.0}, {"f2", -0.0}, {"s2", "a\"b"}, {"s6", "\x01"}, {"s10", "�"}, {"f0", 0.5}}
+	small := []leafSpec{leaves[0], leaves[1], {"i1", 1}, {"f1", 1.0}, {"f2", -0.0}, {"s2", "a\"b"}, {"s6", "\x01"}, {"s10", "�"}, {"f0", 0.5},
+		{"sbs", "a\\"}, {"sbr", "]"}, {"sbc", "}"}, {"sq", "\\\""}}
 	for _, a := range small {
 		for _, b := range small {
 			a, b := a, b
@@ -588,6 +589,9 @@ func c20Oracle(c *oracleCtx) {
 		{"nested-literal", `%n[%n{"k":%n[`, `abc,`, 3, `1]}]`},
 		{"nested-key", `xx%n{"o":{%n"p":[%n{`, `1`, 0, `}]}}`},
 		{"prefix-text", `garbage%nmore%n[%n`, `nope]`, 4, ``},
+		{"str-newline-list", "[%n\"ab%ncd\\\"e%nf\",%n", `tru,`, 3, `1]`},
+		{"str-newline-obj", "{\"k\":%n\"v%nw\",\"o\":{\"s\":\"%nx%ny\"},%n", `x`, 0, `"b":2}`},
+		{"key-newline-obj", "{\"k%nk\":1,%n", `x`, 0, `"b":2}`},
 	}
 	nls := []string{"", "\n", "\n\n", " \n \n\n"}
 	for _, t := range tpls {
